@@ -168,6 +168,13 @@ def derive_list(sl):
     return [x.strip() for x in m.group(1).split(',')] if m else []
 
 
+R16_PINNED = {
+    'SemverError { input: input.into(), span: (input.char_indices().last().map_or(0, |(i, _)| i), 0).into(), kind: SemverErrorKind::MaxLengthError, }',
+    'SemverError { input: input.into(), span: (e.input.as_ptr() as usize - input.as_ptr() as usize, 0).into(), kind: if let Some(kind) = e.kind { kind } else if let Some(ctx) = e.context { SemverErrorKind::Context(ctx) } else { SemverErrorKind::Other }, }',
+    'SemverError { input: input.into(), span: (input.len() - 1, 0).into(), kind: SemverErrorKind::IncompleteInput, }',
+}
+
+
 def build(repo, outdir, stub=(), nohints=()):
     g = Gen(repo)
     g.stub = set(stub)
@@ -475,14 +482,29 @@ impl OrdSpecImpl for Version { open spec fn obeys_cmp_spec() -> bool { true } op
             g.emit('m_desugar', lifted(form + '_desugar_whole', '(%s: %s) -> (r: Option<BoundSet>)' % (sl.param, ty), grid, sl, hint=h, head=head))
         g.unit(form + '_desugar_whole', u_whole)
 
-    def u_hyphen():
-        hyf = top_fn(RNG, 'hyphen').code
-        mm = re.search(r'let (\w+) = opt\(partial_version\)\.parse_next\(input\)\?;.*?let (\w+) = partial_version\(input\)\?;\s*let \2 = match \2 \{.*?\n\s*Ok\((\w+)\)\s*\}', hyf, re.S)
+
+    def hyphen_block():
+        """the nested `fn parser` of hyphen and, inside it, the block that computes the bounds: from `let <up> = match <up> {` up to (not including)
+        the final `Ok(<bd>)` that is the tail expression of the nested fn.  Cut once, used by every unit that lifts or replaces it, so that the
+        lifted text and the replaced text cannot differ (white-box find wb81)."""
+        f = top_fn(RNG, 'hyphen')
+        m0 = re.search(r"fn parser<'s>\(input: &mut &'s str\) -> PResult<Option<BoundSet>, SemverParseError<&'s str>> \{", f.code)
+        if not m0:
+            raise AnchorLost('hyphen(): nested `fn parser`')
+        ob = m0.end() - 1
+        e = match_brace(f.code, ob)
+        body = f.code[ob:e]
+        mm = re.search(r'let (\w+) = opt\(partial_version\)\.parse_next\(input\)\?;.*?let (\w+) = partial_version\(input\)\?;\s*(let \2 = match \2 \{.*)\n\s*Ok\((\w+)\)\s*\}\s*$', body, re.S)
         if not mm:
-            raise AnchorLost('hyphen::parser: lower = opt(partial_version), upper = partial_version, .. Ok(bounds)')
-        lo, up, bd = mm.group(1), mm.group(2), mm.group(3)
-        hy = between(RNG, 'hyphen', 'let %s = match %s' % (up, up), 'Ok(%s)' % bd, 'block in hyphen::parser')
-        g.pins.append('hyphen::parser: lower = opt(partial_version), upper = partial_version, result Ok(bounds)')
+            raise AnchorLost('hyphen::parser: lower = opt(partial_version), upper = partial_version, <bounds block>, tail expression Ok(bounds)')
+        if re.search(r'\breturn\b|\?', mm.group(3)):
+            raise AnchorLost('hyphen::parser: the bounds block leaves the function on its own (`return` / `?`)')
+        blk = Slice(RNG, f.start + ob + mm.start(3), f.start + ob + mm.end(3), 'block in hyphen::parser')
+        return f, m0, e, mm.group(1), mm.group(2), mm.group(4), blk, ob + mm.start(3), ob + mm.end(3)
+
+    def u_hyphen():
+        f, m0, e, lo, up, bd, hy, a, b = hyphen_block()
+        g.pins.append('hyphen::parser: lower = opt(partial_version), upper = partial_version, bounds block, tail expression Ok(bounds)')
         g.emit('m_desugar', lifted('hyphen_desugar', '(%s: Option<Partial>, %s: Partial) -> (r: Option<BoundSet>)' % (lo, up), K.grid_hyphen(lo, up), hy, tail='\n ' + bd))
     g.unit('hyphen_desugar', u_hyphen)
 
@@ -695,32 +717,19 @@ impl OrdSpecImpl for Version { open spec fn obeys_cmp_spec() -> bool { true } op
     # hyphen: the nested `fn parser` is a unit of its own (R18: it is removed from `hyphen`'s body, where the name then resolves to the
     # caller's view of it); inside it the block that computes the bounds is replaced by a call to hyphen_desugar_whole (R5b)
     def u_hy_whole():
-        hyf = top_fn(RNG, 'hyphen').code
-        mm = re.search(r'let (\w+) = opt\(partial_version\)\.parse_next\(input\)\?;.*?let (\w+) = partial_version\(input\)\?;\s*let \2 = match \2 \{.*?\n\s*Ok\((\w+)\)\s*\}', hyf, re.S)
-        if not mm:
-            raise AnchorLost('hyphen::parser: lower = opt(partial_version), upper = partial_version, .. Ok(bounds)')
-        lo, up, bd = mm.group(1), mm.group(2), mm.group(3)
-        hy = between(RNG, 'hyphen', 'let %s = match %s' % (up, up), 'Ok(%s)' % bd, 'block in hyphen::parser')
-        g.emit('m_desugar', K.hyphen_post_text())
+        f, m0, e, lo, up, bd, hy, a, b = hyphen_block()
         grid = ['    requires wf_partial(%s), %s matches Some(f) ==> wf_partial(f),' % (up, lo), '    ensures hyphen_post(%s, %s, r),  // @hyphen#post' % (lo, up)]
         g.emit('m_desugar', lifted('hyphen_desugar_whole', '(%s: Option<Partial>, %s: Partial) -> (r: Option<BoundSet>)' % (lo, up), grid, hy, tail='\n ' + bd))
+    g.emit('m_desugar', K.hyphen_post_text())
     g.unit('hyphen_desugar_whole', u_hy_whole)
 
     def u_hy_parser():
-        f = top_fn(RNG, 'hyphen')
+        f, m0, e, lo, up, bd, hy, a, b = hyphen_block()
         t = f.verbatim
-        m0 = re.search(r"fn parser<'s>\(input: &mut &'s str\) -> PResult<Option<BoundSet>, SemverParseError<&'s str>> \{", f.code)
-        if not m0:
-            raise AnchorLost('hyphen(): nested `fn parser`')
-        ob = m0.end() - 1
-        e = match_brace(f.code, ob)
         nested = Slice(RNG, f.start + m0.start(), f.start + e, 'hyphen::parser')
-        body = nested.verbatim[nested.verbatim.index('{'):]
-        mm = re.search(r'let (\w+) = opt\(partial_version\)\.parse_next\(input\)\?;.*?let (\w+) = partial_version\(input\)\?;\s*(let \2 = match \2 \{.*?)\n\s*Ok\((\w+)\)\s*\}', mask_code(body), re.S)
-        if not mm:
-            raise AnchorLost('hyphen::parser: lower = opt(partial_version), upper = partial_version, .. Ok(bounds)')
-        lo, up, bd = mm.group(1), mm.group(2), mm.group(4)
-        body = body[:mm.start(3)] + 'let %s = hyphen_desugar_whole(%s, %s);' % (bd, lo, up) + body[mm.end(3):]
+        ob = m0.end() - 1
+        body = t[ob:e]
+        body = body[:a - ob] + 'let %s = hyphen_desugar_whole(%s, %s);' % (bd, lo, up) + body[b - ob:]
         nested.rewrites.append('R5b the block that computes the bounds replaced by a call to hyphen_desugar_whole (the same text, lifted and proved against hyphen_post)')
         d = K.GRAMMAR['parser']
         mod = 'm_vg_parser'
@@ -754,11 +763,11 @@ impl OrdSpecImpl for Version { open spec fn obeys_cmp_spec() -> bool { true } op
             if mm.start() < pos:
                 continue
             e = match_brace(code, mm.end() - 1)
-            lit = code[mm.start():e]
-            # what R16 drops must be a plain struct literal: no control flow, no call that can panic or return on its own account
-            bad_tok = re.search(r'\b(?:return|break|continue|loop|while|for|match|unsafe)\b|\?|\w+!\s*[\(\[{]|\.unwrap\(|\.expect\(|\bVersion::|\bRange::|\bparse\b', lit)
-            if bad_tok:
-                raise AnchorLost('a `SemverError { .. }` literal that is more than a struct literal (`%s`): R16 would drop behaviour' % bad_tok.group(0))
+            lit = ' '.join(code[mm.start():e].split())
+            # what R16 drops is pinned, text for text: the three error literals as they stand (whatever else is written there -- control flow,
+            # slicing, a call -- is behaviour this unit would silently lose: the unit is lost instead)
+            if lit not in R16_PINNED:
+                raise AnchorLost('a `SemverError { .. }` literal that is not one of the three pinned ones (`%s`): R16 would drop behaviour' % lit[:70])
             out.append(rest[pos:mm.start()])
             out.append('verif_semver_error()')
             pos = e
@@ -794,11 +803,9 @@ impl OrdSpecImpl for Version { open spec fn obeys_cmp_spec() -> bool { true } op
             if mm.start() < pos:
                 continue
             e = match_brace(code, mm.end() - 1)
-            lit = code[mm.start():e]
-            # what R16 drops must be a plain struct literal: no control flow, no call that can panic or return on its own account
-            bad_tok = re.search(r'\b(?:return|break|continue|loop|while|for|match|unsafe)\b|\?|\w+!\s*[\(\[{]|\.unwrap\(|\.expect\(|\bVersion::|\bRange::|\bparse\b', lit)
-            if bad_tok:
-                raise AnchorLost('a `SemverError { .. }` literal that is more than a struct literal (`%s`): R16 would drop behaviour' % bad_tok.group(0))
+            lit = ' '.join(code[mm.start():e].split())
+            if lit not in R16_PINNED:
+                raise AnchorLost('a `SemverError { .. }` literal that is not one of the three pinned ones (`%s`): R16 would drop behaviour' % lit[:70])
             out.append(rest[pos:mm.start()])
             out.append('verif_semver_error()')
             pos = e
@@ -832,6 +839,8 @@ impl OrdSpecImpl for Version { open spec fn obeys_cmp_spec() -> bool { true } op
                 raise AnchorLost('%s::from_str: `%s::parse(s)`' % (ty, ty))
             sl.text = sl.text.replace('%s::parse(s)' % ty, '%s::parse_str(s)' % ty).replace('fn from_str(s: &str) -> Result<Self, Self::Err>', "fn from_str_lifted<'s>(s: &'s str) -> Result<%s, SemverError>" % ty)
             sl.rewrites += ['R9 trait method body lifted to inherent fn from_str_lifted', 'R15 `parse` is `parse_str`']
+            if ('m_vg_parse' if ty == 'Version' else 'm_vg_rparse') not in g.mods:
+                raise AnchorLost('%s::from_str: the parse function it delegates to is not under contract on this run' % ty)
             mod = 'm_vg_fromstr_' + ty.lower()
             g.private_mods.add(mod)
             g.emit(mod, 'use crate::m_vg_%s::*;\nimpl %s {\n' % ('parse' if ty == 'Version' else 'rparse', ty) + g.inj(sl, '%s::from_str_lifted' % ty, mod, dict(ret='r', contract=contract), make_pub=True) + '\n}')
@@ -1177,6 +1186,22 @@ def source_shape(g, LIB, RNG):
         if not any(f == 'src/range.rs' and a <= ln <= b for (f, a, b) in spans):
             bad.append('[range] src/range.rs:%d: a BoundSet / Range is built outside the functions under contract (`%s`)' % (ln, line.strip()[:70]))
 
+    # S12 every `impl` stands at item level (column 0) -- an impl inside a block (`const _: () = { impl Bound { .. } };`) is compiled but never
+    # extracted --, there is one inherent impl per core type, and no inherent method has the name of a trait method the model relies on
+    # (an inherent `clone` / `eq` / `cmp` / `fmt` / `to_string` wins over the trait's in method resolution)
+    for (nm, code) in (('src/lib.rs', lib), ('src/range.rs', rng)):
+        for m in re.finditer(r'^[ \t]+(?:unsafe\s+)?impl\b[^;{]*\{', code, re.M):
+            if '$t' in m.group(0):
+                continue    # the bodies of the two impl_from_*_for_version macros (pinned by S3 / proved per instance by Kani)
+            bad.append('%s:%d: an `impl` that does not stand at item level: `%s`' % (nm, code.count('\n', 0, m.start()) + 1, ' '.join(m.group(0).split())[:60]))
+        for ty in CORE_TYPES + ('Extras',):
+            n_inh = len(re.findall(r'^impl(?:<[^>]*>)?\s+%s(?:<[^>]*>)?\s*\{' % ty, code, re.M))
+            if n_inh > 1:
+                bad.append('%s: %d inherent impl blocks for %s' % (nm, n_inh, ty))
+        for m in re.finditer(r'^impl(?:<[^>]*>)?\s+(%s)(?:<[^>]*>)?\s*\{' % '|'.join(CORE_TYPES + ('Extras',)), code, re.M):
+            e = match_brace(code, m.end() - 1)
+            for mm in re.finditer(r'\bfn\s+(clone|clone_from|eq|ne|cmp|partial_cmp|lt|le|gt|ge|max|min|hash|fmt|to_string|from_str|from|into|default|borrow|as_ref|deref)\b', code[m.end():e]):
+                bad.append('%s:%d: inherent method `%s` on %s has the name of a trait method the model relies on' % (nm, code.count('\n', 0, m.end() + mm.start()) + 1, mm.group(1), m.group(1)))
     # S2b the only conditional `use` is the serde import; S10 the only macros defined in the crate are the three known ones (a local
     # `macro_rules! write` / `vec` / `assert` would change what the verified text means), no #[macro_use]; S11 Cargo.toml does not redirect the library
     for (nm, code) in (('src/lib.rs', lib), ('src/range.rs', rng)):
